@@ -114,3 +114,22 @@ def run_case(case):
                 classes.add("single_node_query")
     classes |= set(idx.file_classes(case, table))
     return core.Result(nontrivial, sorted(classes))
+
+
+def enumerations(tier, shard, nshards):
+    sizes = [1500] if tier == "quick" else [999, 1000, 1001, 2500, 6000]
+
+    def gen():
+        k = 0
+        for n in sizes:
+            for stable in (False, True):
+                k += 1
+                if k % nshards != shard:
+                    continue
+                g, case = idx.big_file_case(n, n, stable)
+                ids = list(g["nodes"])
+                case["queries"] = [ids, ["s6"], ["h1", "s12", "s1"]]
+                yield case
+
+    yield ("large files (%s records, BGZF in 20 KB blocks, stable and unstable): all nodes / one node / three nodes" % sizes,
+           gen(), True)
